@@ -296,7 +296,7 @@ func c14(c *Ctx) {
 						succ = 0
 					}
 					tb := i.Block().Succs[succ]
-					if ret, isRet := tb.Instrs[len(tb.Instrs)-1].(*ssa.Return); isRet && len(ret.Results) > 0 {
+					if ret, isRet := an.AsReturn(tb.Instrs[len(tb.Instrs)-1]); isRet && len(ret.Results) > 0 {
 						if an.NonNilError(an.RetVal(ret, len(ret.Results)-1), tb) && len(bad) < 4 {
 							bad = append(bad, sprintf("bit %d is refused at %s", b, c.pos(i.Cond.Pos())))
 						}
@@ -975,6 +975,28 @@ func FieldReadsDebug(p *load.Program) []string {
 // must be one function of the definition, or init() names a type the package does not declare.
 func c14ObjSuffix(c *Ctx) {
 	r := c.R
+	// "the schema file shipped as the generator's input is accepted": schemes/api_latest.tl is a symbolic link, so
+	// the tool reads its input the way the OS resolves the path - no probe that looks at the link itself
+	{
+		noFollow := map[string]bool{"os.Lstat": true, "os.Readlink": true, "os.ReadDir": true, "io/ioutil.ReadDir": true, "path/filepath.Walk": true, "path/filepath.WalkDir": true}
+		n, probes := 0, 0
+		for f := range c.P.AllFunctions() {
+			pp := load.FuncPkgPath(f)
+			if !(strings.HasPrefix(pp, load.GenPkg[:strings.LastIndex(load.GenPkg, "/")])) || len(f.Blocks) == 0 {
+				continue
+			}
+			n++
+			for _, cs := range an.Calls(f) {
+				if noFollow[cs.Name] {
+					probes++
+					r.Violate("R14.C", "input-read-through-links:"+an.ShortName(f)+"/"+shortCallee(cs.Name), c.pos(cs.Pos()), cs.Name+" looks at the path without following a symbolic link: the shipped input schemes/api_latest.tl is a link to api_121.tl and would be treated differently from its target")
+				}
+			}
+		}
+		if probes == 0 {
+			r.Hold("R14.C", "input-read-through-links", "", sprintf("%d functions of the generator tool, no no-follow probe of a path", n))
+		}
+	}
 	r.Rule("R14.N", "the Obj suffix is decided by the same predicate over (constructor name, type name) where the struct is declared (generateInterfaces) and where it is listed for registration (getAllConstructors)", 1)
 	tr := an.NewTracer()
 	var descr func(v ssa.Value, d int) string
